@@ -24,6 +24,34 @@ PTRUST = ["the channel, select, go, context and timer constructs of pool.go are 
           "client obligations: each Task is submitted once; results are read only through Result()"]
 QMODEL = "Queue/JdkModel.v (hand-written step machine of jdkLinkedQueue.go + node.go, one step per sync/atomic access) and Queue/MutexModel.v (mutexLinkedQueue.go)"
 
+TIE = ("Tie to /repo, checked on every run: the current sources are copied to build/inst with sync/atomic, sync (and for the pool: channels, select, go, context, timers) "
+       "redirected to a cooperative scheduler; every explored schedule of the REAL code (exhaustive DFS under a preemption bound, seeded random, solo-from-a-random-state) "
+       "is replayed access by access on the extracted Coq model - histories, final-state digests and the number of accesses per call must coincide - and independent monitors "
+       "on the implementation's histories turn a broken tie into a concrete replay. ")
+
+CLAIMS = {
+ "C01": ("5.1", "Coq theorems over the hand-written step machines, for every client program and every interleaving: the lock-free queue is linearizable as a FIFO queue at explicit linearization points (Offer/Poll/Peek/IsEmpty), its linked-list invariants hold in every reachable state and no step dereferences nil; the mutex queue is linearizable as a FIFO queue with Size/IsEmpty, for interleavings that also split a writer's plain read from its plain write. " + TIE,
+         "Models Queue/JdkModel.v, Queue/MutexModel.v (hand-written). _v of a node is assumed immutable and iterator objects thread-owned (checked dynamically by the statement-level hunt build, not proved). Go memory model: DRF-SC assumed. Axiom-free."),
+ "C02": ("5.2", "Coq theorems, every program of Add/Inc/Dec calls, every interleaving, every probe stream and table limit: after quiescence Sum is the exact (wrapped) total for JDKAdder and JDKF64Adder (invariant over base, attached cells, spin flag, private cells, table growth by re-slicing and by copy) and for RandomCellAdder; AtomicAdder, AtomicF64Adder and MutexAdder are linearizable single numbers. " + TIE,
+         "Models Adder/StripedModel.v, Adder/SimpleModel.v. Float adders modelled on integer-valued floats with exact addition (the property's 'exactly representable partial sums'). fastrand is a stream supplied by a stub. Axiom-free."),
+ "C03": ("5.3", "Coq theorems for any number of concurrent callers, any ticker stream, any configuration: a closed circuit admits; admission on a non-closed circuit happens only by the CAS that replaces the inspected state object, only after its deadline was seen expired, installing a fresh half-open state with the trial deadline; every state object is replaced at most once in an execution (pointer monotone, no ABA) so at most one trial per period and exactly one transition for concurrent reports; rejections before the deadline notify every listener once; open/half-open states carry no counter; a closing success installs a brand-new empty window. 'Exactly one of the concurrent callers is admitted' is proved as 'at most one' + sequential exactness (C06); liveness of the winner is not stated. " + TIE,
+         "Model Breaker/BreakerModel.v; inside package cbreaker the queue and adders are atomic specification objects (composition by their own linearizability, C01/C13/C02/C09). Deadlines use wrapped int64 arithmetic as the code does (tick+window overflow near 2^63 is outside the property's intent and documented). Axiom-free."),
+ "C06": ("5.6", "Coq refinement theorem: for every configuration, listener count, ticker stream and single-threaded sequence of CanRequest/OnSuccess/OnFailure the step machine returns exactly the decisions, listener log and tick consumption of the documented reference machine (Breaker/Ref.v), plus readable corollaries on the reference (trip rule iff, open/half-open behaviour, each listener once, what a roll keeps). " + TIE,
+         "Model Breaker/BreakerModel.v vs reference Breaker/Ref.v; float threshold test = SpecFloat binary64. A Go re-implementation of the reference machine is an additional independent oracle in the driver. Axiom-free."),
+ "C07": ("5.7", "Coq theorems: no step of any lock-free queue operation is ever disabled, and from EVERY reachable configuration (other threads frozen anywhere, forever) a thread running alone completes its current/next call within 4*nodes+13 own steps - Offer, Poll, Peek, IsEmpty, Size and all iterator operations. " + TIE + "The driver additionally measures solo step counts from random reachable states of the real code.",
+         "Model Queue/JdkModel.v. Fairness-based progress under contention (lock-freedom in the technical sense) is not stated; the bound is for solo runs as the property says. Axiom-free."),
+ "C09": ("5.9", "PARTIAL. Proved: AtomicAdder, AtomicF64Adder, MutexAdder are linearizable counters, which implies the Sum-window statement for them. For the striped adders (whose Sum is not an atomic snapshot) the window theorem is not yet part of the checked development unless Adder/StripedSum.v is present; it is covered by the correspondence + the per-history subset-sum monitor on the real code. " + TIE,
+         "Models Adder/StripedModel.v, Adder/SimpleModel.v. Axiom-free."),
+ "C10": ("5.10", "Coq theorems for any number of concurrent reporters: bucket ids are never shared, the current bucket is never also archived, carried buckets are in no reservoir (so trimAndSum counts nothing twice) and the counters of all buckets together equal the number of executed report-adds modulo 2^64 (nothing invented, nothing lost, CAS losers and back-in-time events included); sequentially the window returns exactly the reference window's counts for every tick stream. The upper bound for counts returned DURING concurrency is not stated as a theorem (monitor + correspondence only). " + TIE,
+         "Model Breaker/BreakerModel.v (reservoir = weakly-consistent-iterator specification object, adders = counters). Axiom-free."),
+ "C15": ("5.15", "Coq theorems: one goroutine using the lock-free queue (Offer incl. nil, Poll, Peek, IsEmpty, Size, Iterator/HasNext/Next/Remove) gets exactly the results of a plain list object; after ANY concurrent execution Size, further FIFO use and a full drain agree with the elements offered and not yet removed; the mutex queue is linearizable over its API. " + TIE,
+         "Models Queue/JdkModel.v, Queue/MutexModel.v. Size saturation at MaxInt32 and int32(l.Len()) wrap excluded by hypothesis (fewer than 2^31-1 elements). Axiom-free."),
+ "C16": ("5.16", "PARTIAL. Proved: MutexAdder over the whole API and AtomicAdder/AtomicF64Adder over Add/Inc/Dec/Sum/Store/Reset are linearizable single numbers. For JDKAdder/JDKF64Adder/RandomCellAdder the single-threaded and between-phases reading (Store with a grown table) is covered by the correspondence (sequential scripts, phased scenarios) and the reference-number monitor, and by Adder/StripedSeq.v when present. " + TIE,
+         "Models Adder/StripedModel.v, Adder/SimpleModel.v. Axiom-free."),
+ "C19": ("5.19", "Coq theorems: MutexLinkedQueue (Offer, Poll, Peek, Size, IsEmpty) and MutexAdder (Add, Inc, Dec, Sum, Store, Reset, SumAndReset) are linearizable at explicit points for every program and interleaving, with writers' critical sections split into a plain read step and a plain write step so that mutual exclusion is what the proof uses. " + TIE,
+         "Models Queue/MutexModel.v, Adder/SimpleModel.v mutex_adder. sync.RWMutex modelled without writer preference (only removes behaviours). Axiom-free."),
+}
+
 SPECS = {
     "C01": spec("C01", "Queues are linearizable FIFO queues", "queue", queue.gen_c01, QMODEL,
                 relevant=r"not linearizable|left the queue|never offered|lost|did not complete", fine_gen=queue.fine_c01),
